@@ -305,7 +305,7 @@ class OpGen:
                 it = other_iface
                 fs = self.object_fields(it, 0)
                 if fs:
-                    sels.append("... on %s { %s }" % (it.name, " ".join(self.field(it, f, 0) for f in fs)))
+                    sels.append("... on %s%s { %s }" % (it.name, self.fragment_directive(), " ".join(self.field(it, f, 0) for f in fs)))
                     self.feats.add("frag.inline.on_interface")
             if not sels:
                 sels.append("__typename")
